@@ -225,6 +225,10 @@ Definition judge03 (c : scase) : bool * bool := (agree c, m03 c && m03d c).
 Definition judge04 (c : scase) : bool * bool := (agree c, m04 c && m04d c).
 Definition judge05s (c : scase) : bool * bool := (agree c, m04d c && match target c with Some m => negb (is_goingb m) || negb (os_orphan m) || is_nil (members c) | None => true end).
 Definition judge06 (c : scase) : bool * bool := (agree c, m06 c && m06d c).
-Definition judge09 (c : scase) : bool * bool := (agree c, m09 c).
+(** C09 with delegated phases: the pause state is handed to every phase object the phase loop reached ([m09d]);
+    [m09d_all]: to every phase object of the ObjectSet, also those behind the phase the pass stopped at. *)
+Definition m09d (c : scase) : bool := C15Corr.m_pause (as_dobs c).
+Definition m09d_all (c : scase) : bool := C15Corr.m_pause_all (as_dobs c).
+Definition judge09 (c : scase) : bool * bool * bool := (agree c, m09 c && m09d c, m09d_all c).
 Definition judge11 (c : scase) : bool * bool := (agree c, m11 c).
 Definition judge_all (c : scase) : list bool := [agree c; m01 c; m03 c && m03d c; m04 c && m04d c; m06 c && m06d c; m09 c; m11 c].
